@@ -24,6 +24,31 @@ CHECKS["C03"] = dict(
          "'Keeps working' is asserted only for names with a known-valid snippet; 'fails when banned' for every registered name.",
     technique="TLA+ model checking (TLC) + exhaustive history replay + registry-driven route replay", ref="DESIGN.md §3 C03")
 
+CHECKS["C06"] = dict(
+    text="PongoLexer.tla is a small-step machine over source bytes with one action per lexer branch; TLC enumerates every symbol string "
+         "up to the bound and checks Coverage (token and skipped spans tile the source), HtmlExact, NoDelimIdentity, VerbatimLiteral in every "
+         "state; PongoDoc.tla defines the rendered output of fragment documents twice (declaratively on fragments, operationally on tokens) "
+         "and TLC checks they agree. Every terminal state is replayed on the real lexer and engine, and the real lexer's token traces of "
+         "the repository's own templates are validated by Trace_PongoLexer. 'All byte strings' is exactly what exhaustive enumeration over a "
+         "lexer-significant alphabet gives.",
+    note="Trusted: TLC, VerifLex hook, byte-level abstraction (non-ASCII bytes are opaque). Bounds: symbol strings <=3/4 (quick) and <=4/6 (thorough); "
+         "fragment documents <=4/5 fragments.",
+    technique="TLA+ model checking (TLC) + exhaustive replay + trace validation", ref="DESIGN.md §3 C06")
+CHECKS["C15"] = dict(
+    text="PongoDoc.tla states which whitespace each '-' marker and each of TrimBlocks/LStripBlocks names (Shape) and derives the hand-stripped "
+         "document; TLC enumerates all fragment documents up to the bound x all dash subsets x the four option settings and checks the "
+         "fragment-level and token-level outputs agree; the real engine renders the marked and the hand-stripped source and both must equal "
+         "the specification's output. Trim flags of the delimiters come from PongoLexer (TrimFlags).",
+    note="Trusted: TLC, harness renderer. Comments/verbatim are kept away from trimming constructs (unsettled placements). spaceless is covered "
+         "by PongoFilters (see evidence).",
+    technique="TLA+ model checking (TLC) + exhaustive replay (marked and hand-stripped documents)", ref="DESIGN.md §3 C15")
+CHECKS["C16"] = dict(
+    text="PongoLexer.tla keeps line/column incrementally; TLC checks CursorExact/PositionExact (bookkeeping equals the declarative position of "
+         "the span start) in every reachable state of every enumerated source, and the real lexer's token and error positions must equal "
+         "the specification's on all of them and on the token traces of the repository's templates (Trace_PongoLexer).",
+    note="Trusted: TLC, VerifLex hook. Columns are bytes. Parser/execution error positions are checked by the harness's error sweep (see evidence).",
+    technique="TLA+ model checking (TLC) + exhaustive replay + trace validation", ref="DESIGN.md §3 C16")
+
 PENDING = {}
 
 def main():
